@@ -258,7 +258,7 @@ class FnCtx:
 
         def walk(e):
             if isinstance(e, (tuple, list)):
-                if len(e) >= 3 and e[0] == 'call' and e[1] == ('id', 'ncalls') and e[2] and e[2][0][0] == 'id':
+                if len(e) >= 3 and e[0] == 'call' and e[1] in (('id', 'ncalls'), ('id', 'lastseq')) and e[2] and e[2][0][0] == 'id':
                     out.add(e[2][0][1])
                 for x in e:
                     walk(x)
